@@ -1055,6 +1055,50 @@ theorem geodesicInterpolate_overshoot_witness :
       [0, 1, 2] (1 / 2) = some 2 :=
   overshoot_witness
 
+/-! ## Residuals that are not numbers (constraints that are not finite everywhere) -/
+
+/-- [AF] a residual that compares false **both** ways with the squared tolerance — what an IEEE NaN does, e.g.
+`z - sqrt(1 - x² - y²)` outside the unit cylinder — ends `Constraint::project` at once: no Newton step, the state is left
+untouched, and the verdict is **false** (the `norm < squaredTolerance` of the final `return`, not "the loop ended"). -/
+theorem project_unordered_residual_false (A : Arith D) (Rs : Resid R D) (O : Oracle σ S R) (tolSq : D) (maxIter : Nat)
+    (s : σ) (x : S) (h1 : A.lt tolSq (Rs.nsq (O.fn s x).1) = false) (h2 : A.lt (Rs.nsq (O.fn s x).1) tolSq = false) :
+    project A Rs O tolSq maxIter s x = (false, x, (O.fn s x).2) := by
+  unfold project
+  cases maxIter <;> simp [projectLoop, h1, h2]
+
+/-- [AF] … and the same at any later iterate: whenever `project` answers `true`, the residual of the state it returns
+compared `<` with the squared tolerance — so it is not such an unordered value (restates `project_true_satisfied` in the
+form the NaN case needs). -/
+theorem project_true_residual_ordered (A : Arith D) (Rs : Resid R D) (O : Oracle σ S R) (tolSq : D) (maxIter : Nat)
+    (s : σ) (x x' : S) (s' : σ) (h : project A Rs O tolSq maxIter s x = (true, x', s')) :
+    ∃ f, Evaluated O x' f ∧ A.lt (Rs.nsq f) tolSq = true :=
+  project_true_satisfied A Rs O tolSq maxIter s x x' s' h
+
+/-- non-vacuity with a partial order standing in for IEEE comparison (`none` = NaN: every comparison false): the
+constraint is undefined at 7 — `project` refuses 7 untouched without consulting the Newton step; at 3 (residual 0 < 1)
+it accepts. -/
+example :
+    let A : Arith (Option Nat) :=
+      { zero := some 0, one := some 1, eps := some 0, add := fun a b => a.bind (fun x => b.map (x + ·)),
+        sub := fun a _ => a, mul := fun a _ => a, div := fun a _ => a, abs := id,
+        lt := fun a b => match a, b with | some x, some y => decide (x < y) | _, _ => false,
+        le := fun a b => match a, b with | some x, some y => decide (x ≤ y) | _, _ => false }
+    let Rs : Resid (Option Nat) (Option Nat) := ⟨id, Option.isSome⟩
+    let O : Oracle Unit Nat (Option Nat) :=
+      ⟨fun _ x => (if x = 7 then none else some 0, ()), fun _ _ _ => (99, ()), fun _ _ => (true, ())⟩
+    project A Rs O (some 1) 50 () 7 = (false, 7, ()) ∧ project A Rs O (some 1) 50 () 3 = (true, 3, ()) := by
+  constructor <;> simp [project, projectLoop]
+
+/-- [AF] the same for `AtlasChart::psi` (Atlas / TangentBundle): an initial stacked residual that compares false both
+ways with the squared tolerance in force makes `psi` answer **false** at once, leaving `phi(u)` in the output. -/
+theorem psi_unordered_residual_false {U B : Type} (A : Arith D) (nsq : B → D) (O : PsiOracle σ S U B) (tolSq : D)
+    (maxIter : Nat) (s : σ) (u : U)
+    (h1 : A.lt tolSq (nsq (O.resid (O.phi s u).2 (O.phi s u).1).1) = false)
+    (h2 : A.lt (nsq (O.resid (O.phi s u).2 (O.phi s u).1).1) tolSq = false) :
+    (psiChart A nsq O tolSq maxIter s u).1 = false ∧ (psiChart A nsq O tolSq maxIter s u).2.1 = (O.phi s u).1 := by
+  unfold psiChart
+  cases maxIter <;> simp [psiLoop, h1, h2]
+
 /-! ## The glue planners go through: `ConstrainedSpaceInformation.h` (Model/ConstrainedSI.lean)
 
 `getMotionStates` (both classes), `TangentBundleSpaceInformation::checkMotion(…, lastValid)` and
